@@ -67,7 +67,8 @@ ObsStep(e) ==
               [] e.op = "drop" -> [oLastW EXCEPT ![e.f] = "-"]
               [] OTHER -> oLastW
       W0 == IF e.op \in {"poll", "drop"} THEN [oWoken EXCEPT ![e.f] = FALSE] ELSE oWoken
-      ws == Wakes(e)
+      \* wakers taken under the lock and invoked after it (`taken`) count like in-lock wake-ups
+      ws == Wakes(e) \o (IF "taken" \in DOMAIN e THEN e.taken ELSE <<>>)
   IN
   /\ oA' = A /\ oSet' = S /\ oLastW' = LW
   /\ oWoken' = [f \in Slots |-> W0[f] \/ (A[f] = "pending" /\
